@@ -45,6 +45,8 @@ func (p qPred) String() string {
 		return fmt.Sprintf("== %q", p.S)
 	case "even":
 		return "even"
+	case "signbit":
+		return "signbit"
 	}
 	return fmt.Sprintf("%s %d", p.Op, p.K)
 }
@@ -59,6 +61,8 @@ func (p qPred) evalInt(v int64) bool {
 		return v == p.K
 	case "even":
 		return v%2 == 0
+	case "signbit":
+		return v < 0
 	}
 	return false
 }
@@ -88,6 +92,8 @@ func (p qPred) evalFloat(v float64) bool {
 		return v == float64(p.K)
 	case "even":
 		return math.Mod(v, 2) == 0
+	case "signbit":
+		return math.Signbit(v) // tells -0 from +0
 	}
 	return false
 }
@@ -394,7 +400,7 @@ func (mc *Machine) genQuery(t *rapid.T) []qOp {
 				o.Pred = qPred{Op: rapid.SampledFrom([]string{"prefix", "==s", "len<="}).Draw(t, "q-sop"),
 					S: rapid.SampledFrom([]string{"", "a", "s", "s1", "e", "b", "k", "p"}).Draw(t, "q-s"), K: int64(rapid.IntRange(0, 3).Draw(t, "q-sk"))}
 			} else {
-				o.Pred = qPred{Op: rapid.SampledFrom([]string{"<", ">=", "==", "even"}).Draw(t, "q-op"), K: int64(rapid.IntRange(-30, 60).Draw(t, "q-k"))}
+				o.Pred = qPred{Op: rapid.SampledFrom([]string{"<", ">=", "==", "even", "signbit"}).Draw(t, "q-op"), K: int64(rapid.IntRange(-30, 60).Draw(t, "q-k"))}
 				// half of the thresholds sit on (or one beside) a value that a live row holds in that column:
 				// a filter that loses low bits of a 64-bit value, or compares in the wrong width, decides such a row wrongly
 				if ci >= 0 && !mc.Sch.Cols[ci].Kind.Float() && mc.Sch.Cols[ci].Kind.Numeric() && mc.Sch.Cols[ci].Kind != KBool && rapid.Bool().Draw(t, "q-k-near-data") {
@@ -412,6 +418,10 @@ func (mc *Machine) genQuery(t *rapid.T) []qOp {
 						mc.flag("threshold-beside-stored-value")
 					}
 				}
+			}
+			if ci >= 0 && mc.Sch.Cols[ci].Kind.Float() && o.Kind >= qWithValue && o.Kind <= qWithFloat && rapid.IntRange(0, 2).Draw(t, "q-sign-of-float") == 0 {
+				// float columns hold zeros of both signs: a third of their value filters asks for the sign bit
+				o.Kind, o.Pred = qWithFloat, qPred{Op: "signbit"}
 			}
 			if o.Kind == qWithUint && ci >= 0 && mc.Sch.Cols[ci].Kind.Float() {
 				o.Kind = qWithInt // float -> uint64 conversion of negative values is implementation-specific
@@ -563,7 +573,8 @@ func (mc *Machine) checkAggregates(t *rapid.T, sel map[uint32]bool, ci int, got 
 	if got.MinOK != (n > 0) || got.MOK != (n > 0) {
 		mc.fail(t, "%s: Min/Max of %s report ok=%v/%v, %d selected rows hold a value", what, name, got.MinOK, got.MOK, n)
 	}
-	if n > 0 && (got.Min != mn || got.Max != mx) {
+	same := func(a, b uint64) bool { return a == b || (k.Float() && toFloat64(k, a) == toFloat64(k, b)) } // -0 and +0 are one value
+	if n > 0 && (!same(got.Min, mn) || !same(got.Max, mx)) {
 		mc.fail(t, "%s: Min/Max of %s = %s / %s, computed directly over the %d selected rows holding a value: %s / %s", what, name,
 			Value{B: got.Min}.render(k), Value{B: got.Max}.render(k), n, Value{B: mn}.render(k), Value{B: mx}.render(k))
 	}
@@ -595,6 +606,12 @@ func c04SafeValue(t *rapid.T, cs ColSpec, label string) Value {
 		return Value{B: genBits(t, KBool, label)}
 	case cs.Kind.Float():
 		f := float64(rapid.IntRange(-200, 200).Draw(t, label)) / 4
+		if rapid.IntRange(0, 3).Draw(t, label+"-zero") == 0 {
+			f = 0 // zeros of both signs are frequent: neighbours that compare equal and are not the same value
+		}
+		if f == 0 && rapid.Bool().Draw(t, label+"-negative-zero") {
+			f = math.Copysign(0, -1)
+		}
 		if cs.Kind == KFloat32 {
 			return Value{B: uint64(math.Float32bits(float32(f)))}
 		}
@@ -673,7 +690,19 @@ func TestC04(t *testing.T) {
 			count := -1
 			aggs := map[int]aggResult{}
 			var readErr string
+			upFront := -1
+			if rapid.IntRange(0, 2).Draw(t, "accessor-up-front") == 0 {
+				upFront = rapid.IntRange(0, len(sch.Cols)-1).Draw(t, "accessor-col")
+				if !mc.M.ColLive[upFront] || sch.Cols[upFront].Kind == KKey {
+					upFront = -1
+				}
+			}
 			target.Query(func(txn *column.Txn) error {
+				if upFront >= 0 {
+					// a typed column accessor obtained (and read once) BEFORE the filter chain, the way
+					// transactions are commonly written; it must not change what the chain selects
+					_, _ = readCell(txn, column.Row{}, sch.Cols[upFront], ReadTxnTyped)
+				}
 				for _, o := range ops {
 					mc.applySUT(txn, o)
 				}
